@@ -62,7 +62,7 @@ func (r *obsRun) set(k string) {
 	switch k {
 	case "zero":
 	case "past":
-		t = time.Now() // an instant that has passed by the time Set looks at the clock (dur <= 0)
+		t = time.Now()         // an instant that has passed by the time Set looks at the clock (dur <= 0)
 		if rand.Intn(2) == 0 { //nolint:gosec
 			t = t.Add(-time.Duration(rand.Intn(int(time.Now().Sub(r.base)/time.Second)+1)) * time.Second) //nolint:gosec
 		}
